@@ -10,7 +10,7 @@ use std::{
     ffi::{OsStr, OsString},
     fmt::Display,
     fs,
-    io::{self, BufRead, BufReader, Read},
+    io::{self, BufRead, BufReader, Read, Write},
     process::{Command, Stdio},
 };
 
@@ -581,15 +581,21 @@ impl CommandBuilder<'_> {
                 Err(e) => Err(CommandExecutionError::CannotRun(e)),
             },
             ExecAction::Echo => {
-                println!(
-                    "{}",
-                    self.extra_args
-                        .iter()
-                        .map(|arg| arg.to_string_lossy())
-                        .collect::<Vec<_>>()
-                        .join(" ")
-                );
-                Ok(CommandResult::Success)
+                let line = self
+                    .extra_args
+                    .iter()
+                    .map(|arg| arg.to_string_lossy())
+                    .collect::<Vec<_>>()
+                    .join(" ");
+                // Like an `echo` child that cannot write: a failed invocation, not a panic.
+                let mut out = io::stdout().lock();
+                match writeln!(out, "{line}").and_then(|()| out.flush()) {
+                    Ok(()) => Ok(CommandResult::Success),
+                    Err(e) => {
+                        let _ = writeln!(io::stderr(), "Error: cannot write the arguments: {e}");
+                        Ok(CommandResult::Failure)
+                    }
+                }
             }
         }
     }
